@@ -10,7 +10,26 @@ import (
 	"bytes"
 	"errors"
 	"fmt"
+	"io"
+	"sort"
 	"strings"
+	"sync"
+
+	"golang.org/x/image/font/gofont/gobold"
+	"golang.org/x/image/font/gofont/gobolditalic"
+	"golang.org/x/image/font/gofont/goitalic"
+	"golang.org/x/image/font/gofont/gomedium"
+	"golang.org/x/image/font/gofont/gomediumitalic"
+	"golang.org/x/image/font/gofont/gomono"
+	"golang.org/x/image/font/gofont/gomonobold"
+	"golang.org/x/image/font/gofont/gomonobolditalic"
+	"golang.org/x/image/font/gofont/gomonoitalic"
+	"golang.org/x/image/font/gofont/goregular"
+	"golang.org/x/image/font/gofont/gosmallcaps"
+	"golang.org/x/image/font/gofont/gosmallcapsitalic"
+	ximg "golang.org/x/image/font/sfnt"
+	"golang.org/x/image/math/fixed"
+	"seehuhn.de/go/sfnt/header"
 
 	"seehuhn.de/go/postscript/funit"
 	"seehuhn.de/go/sfnt/glyf"
@@ -149,6 +168,137 @@ func glyfSimpleOp(f Fields) string {
 	}))
 }
 
+// ---------------------------------------------------------------- x/image oracle
+
+var glyfRealFonts = map[string][]byte{
+	"gobold": gobold.TTF, "gobolditalic": gobolditalic.TTF, "goitalic": goitalic.TTF,
+	"gomedium": gomedium.TTF, "gomediumitalic": gomediumitalic.TTF, "gomono": gomono.TTF,
+	"gomonobold": gomonobold.TTF, "gomonobolditalic": gomonobolditalic.TTF,
+	"gomonoitalic": gomonoitalic.TTF, "goregular": goregular.TTF, "gosmallcaps": gosmallcaps.TTF,
+	"gosmallcapsitalic": gosmallcapsitalic.TTF,
+}
+
+type glyfRealFont struct {
+	glyphs glyf.Glyphs // decoded by /repo's glyf.Decode
+	xf     *ximg.Font  // parsed by golang.org/x/image/font/sfnt
+	upem   int
+}
+
+var (
+	glyfRealMu    sync.Mutex
+	glyfRealCache = map[string]*glyfRealFont{}
+)
+
+func glyfLoadReal(name string) *glyfRealFont {
+	glyfRealMu.Lock()
+	defer glyfRealMu.Unlock()
+	if f, ok := glyfRealCache[name]; ok {
+		return f
+	}
+	data, ok := glyfRealFonts[name]
+	if !ok {
+		panic("unknown font " + name)
+	}
+	r := bytes.NewReader(data)
+	info, err := header.Read(r)
+	if err != nil {
+		panic(err)
+	}
+	tab := func(tag string) []byte {
+		rec := info.Toc[tag]
+		b := make([]byte, rec.Length)
+		if _, err := r.ReadAt(b, int64(rec.Offset)); err != nil && err != io.EOF {
+			panic(err)
+		}
+		return b
+	}
+	head := tab("head")
+	gg, err := glyf.Decode(&glyf.Encoded{GlyfData: tab("glyf"), LocaData: tab("loca"),
+		LocaFormat: int16(head[50])<<8 | int16(head[51])})
+	if err != nil {
+		panic(err)
+	}
+	xf, err := ximg.Parse(data)
+	if err != nil {
+		panic(err)
+	}
+	f := &glyfRealFont{glyphs: gg, xf: xf, upem: int(head[18])<<8 | int(head[19])}
+	glyfRealCache[name] = f
+	return f
+}
+
+// glyfXImageOp: segments x/image's LoadGlyph produces for glyph gid of a real font, at
+// ppem = unitsPerEm (so the result is in font units, y axis flipped).  The case line also carries
+// the simple-glyph bytes /repo's glyf.Decode delivers for that glyph; they are re-derived here so
+// that a stale line is recognised.
+func glyfXImageOp(f Fields) string {
+	return canonPanic(guard(func() string {
+		rf := glyfLoadReal(f["font"])
+		gid := f.Int("gid")
+		if gid < 0 || gid >= len(rf.glyphs) || rf.glyphs[gid] == nil {
+			return "stale-case"
+		}
+		sg, ok := rf.glyphs[gid].Data.(glyf.SimpleGlyph)
+		if !ok || int(sg.NumContours) != f.Int("nc") || !bytes.Equal(sg.Encoded, f.Hex("enc")) {
+			return "stale-case"
+		}
+		var buf ximg.Buffer
+		segs, err := rf.xf.LoadGlyph(&buf, ximg.GlyphIndex(gid), fixed.Int26_6(rf.upem), nil)
+		if err != nil {
+			return "err"
+		}
+		parts := make([]string, len(segs))
+		for i, s := range segs {
+			a := s.Args
+			switch s.Op {
+			case ximg.SegmentOpMoveTo:
+				parts[i] = fmt.Sprintf("M%d/%d", int(a[0].X), int(a[0].Y))
+			case ximg.SegmentOpLineTo:
+				parts[i] = fmt.Sprintf("L%d/%d", int(a[0].X), int(a[0].Y))
+			case ximg.SegmentOpQuadTo:
+				parts[i] = fmt.Sprintf("Q%d/%d/%d/%d", int(a[0].X), int(a[0].Y), int(a[1].X), int(a[1].Y))
+			default:
+				parts[i] = "?"
+			}
+		}
+		return "ok:" + strings.Join(parts, ",")
+	}))
+}
+
+// glyfRealFontCases: every budget-th simple glyph of the Go fonts through SimpleGlyph.Decode
+// (model), the specification decoder and the x/image oracle.
+func glyfRealFontCases(c *Ctx, perFont int) {
+	names := make([]string, 0, len(glyfRealFonts))
+	for k := range glyfRealFonts {
+		names = append(names, k)
+	}
+	sort.Strings(names)
+	for _, name := range names {
+		rf := glyfLoadReal(name)
+		var simple []int
+		for gid, g := range rf.glyphs {
+			if g == nil {
+				continue
+			}
+			if _, ok := g.Data.(glyf.SimpleGlyph); ok {
+				simple = append(simple, gid)
+			}
+		}
+		for k := 0; k < perFont && len(simple) > 0; k++ {
+			j := c.Rng.Intn(len(simple))
+			gid := simple[j]
+			simple = append(simple[:j], simple[j+1:]...)
+			sg := rf.glyphs[gid].Data.(glyf.SimpleGlyph)
+			args := fmt.Sprintf("nc=%d enc=%s", sg.NumContours, hx(sg.Encoded))
+			c.Case(Verdict, "glyf.simple", args, true)
+			c.Case(Direct, "glyf.simplespec", args, true)
+			out := c.Case(Direct, "glyf.ximage", fmt.Sprintf("font=%s gid=%d %s", name, gid, args), true)
+			c.Stat("ximage_outcome", glyfOutcomeClass(out))
+			c.Stat("ximage_font", name)
+		}
+	}
+}
+
 func init() {
 	areas["glyf"] = areaGlyf
 	ops["glyf.encode"] = func(f Fields) string {
@@ -201,6 +351,7 @@ func init() {
 	}
 	ops["glyf.simple"] = glyfSimpleOp
 	ops["glyf.simplespec"] = glyfSimpleOp
+	ops["glyf.ximage"] = glyfXImageOp
 	ops["glyf.locafacts"] = func(f Fields) string { return "facts-ok" }
 	ops["glyf.comps"] = func(f Fields) string {
 		return canonPanic(guard(func() string {
@@ -811,6 +962,12 @@ func areaGlyf(c *Ctx) {
 			gg[k] = &glyf.Glyph{Data: glyf.SimpleGlyph{NumContours: int16(r.Range(0, 3)), Encoded: r.Bytes(r.Range(0, 30))}}
 		}
 		glyfSetCase(c, gg, false)
+	}
+	// --- real fonts with golang.org/x/image as a second, independent decoder
+	if c.Tier == "thorough" {
+		glyfRealFontCases(c, 1<<20) // every simple glyph of the twelve Go fonts
+	} else {
+		glyfRealFontCases(c, 6)
 	}
 	// --- SimpleGlyph.Decode at the boundaries of the 16-bit point count (every run, both tiers)
 	bcounts := append([]int(nil), glyfBoundaryCounts...)
